@@ -21,36 +21,34 @@ Proof.
   rewrite IH. destruct (c10j_open_warn f), w; reflexivity.
 Qed.
 
-(* m->warnings in closed form: every role, and decode-time warnings unless --split-pages *)
+(* m->warnings in closed form: every role, and decode-time warnings with and without --split-pages *)
 Lemma c10j_warnings_spec j :
   c10j_warnings j =
   existsb c10j_open_warn (c10j_opt (c10j_main j)) || existsb c10j_open_warn (c10j_pages j) ||
   existsb c10j_open_warn (c10j_uo j) || existsb c10j_open_warn (c10j_attach j) ||
   existsb c10j_open_warn (c10j_opt (c10j_enc j)) ||
-  (c10j_main_late j && c10j_decode j && negb (c10j_split j)).
+  (c10j_main_late j && c10j_decode j).
 Proof.
-  unfold c10j_warnings. rewrite c10j_uo_loop_spec, c10j_copy_attachments_spec, c10j_inputs_clear_spec. unfold c10j_main_warnings.
+  unfold c10j_warnings. rewrite c10j_uo_loop_spec, c10j_copy_attachments_spec, c10j_inputs_clear_spec.
+  unfold c10j_main_warnings, c10j_split_warnings.
   destruct (existsb c10j_open_warn (c10j_opt (c10j_main j))), (existsb c10j_open_warn (c10j_pages j)),
            (existsb c10j_open_warn (c10j_uo j)), (existsb c10j_open_warn (c10j_attach j)),
            (existsb c10j_open_warn (c10j_opt (c10j_enc j))),
-           (c10j_main_late j && c10j_decode j && negb (c10j_split j)); reflexivity.
+           (c10j_main_late j), (c10j_decode j), (c10j_split j); reflexivity.
 Qed.
 
 (* C10, first sentence, for every job over any number of files in the roles main input / --pages / --overlay /
    --underlay / --copy-attachments-from (with or without embedded files in the source, in any order) /
    --copy-encryption, with or without --split-pages, --warning-exit-0 and decoded output: the exit status is 3 exactly
-   when a warning was reported about one of the files processed - provided no decode-time warning falls into a
-   --split-pages run (the refuted case below). *)
-Lemma job_exit_counts_every_file_partial_lemma : forall j,
-  (c10j_main_late j && c10j_decode j && c10j_split j) = false ->
-  c10j_exit j = c10j_spec_exit j.
+   when a warning was reported about one of the files processed. *)
+Lemma job_exit_counts_every_file_lemma : forall j, c10j_exit j = c10j_spec_exit j.
 Proof.
-  intros j Hs. unfold c10j_exit, c10j_spec_exit, c10j_reported, c10j_files_processed.
+  intros j. unfold c10j_exit, c10j_spec_exit, c10j_reported, c10j_files_processed.
   rewrite c10j_warnings_spec. rewrite !existsb_app.
   destruct (existsb c10j_open_warn (c10j_opt (c10j_main j))), (existsb c10j_open_warn (c10j_pages j)),
            (existsb c10j_open_warn (c10j_uo j)), (existsb c10j_open_warn (c10j_attach j)),
            (existsb c10j_open_warn (c10j_opt (c10j_enc j))),
-           (c10j_main_late j), (c10j_decode j), (c10j_split j); simpl in *; try reflexivity; discriminate.
+           (c10j_main_late j), (c10j_decode j); simpl in *; reflexivity.
 Qed.
 
 (* whatever else the job does: a file, in ANY role, that gave warnings when opened makes the exit status 3; for
@@ -87,7 +85,7 @@ Proof.
   destruct (existsb c10j_open_warn (c10j_opt (c10j_main j))), (existsb c10j_open_warn (c10j_pages j)),
            (existsb c10j_open_warn (c10j_uo j)), (existsb c10j_open_warn (c10j_attach j)),
            (existsb c10j_open_warn (c10j_opt (c10j_enc j))),
-           (c10j_main_late j), (c10j_decode j), (c10j_split j); simpl in *; try reflexivity; discriminate.
+           (c10j_main_late j), (c10j_decode j); simpl in *; try reflexivity; discriminate.
 Qed.
 
 (* the --copy-encryption role in particular (finding C08-F16, repaired by /repo d4bc1464: before it the model said 0
@@ -99,11 +97,17 @@ Proof.
   unfold c10j_files_processed. rewrite He. rewrite !in_app_iff. right; right; right; right. left. reflexivity.
 Qed.
 
-(* Refuted as stated (known finding): --split-pages with decoded output on an input with a stream that fails to decode:
-   the warnings are printed while the per-group writer runs and are recorded on a QPDF object nobody asks. *)
-Lemma job_split_pages_late_warnings_refuted_lemma :
-  exists j, c10j_wx0 j = false /\ c10j_split j = true /\ c10j_reported j = true /\ c10j_exit j = 0 /\ c10j_spec_exit j = 3.
+(* --split-pages with decoded output on an input with a stream that fails to decode (finding
+   C10-F1-split-pages-late-warnings, repaired by /repo PENDING10: before it the warnings were recorded on a QPDF object
+   nobody asked, the model said 0 and job_split_pages_late_warnings_refuted was the theorem), for every job ... *)
+Lemma job_split_pages_late_warnings_count_lemma : forall j,
+  c10j_split j = true -> c10j_main_late j = true -> c10j_decode j = true -> c10j_wx0 j = false -> c10j_exit j = 3.
 Proof.
-  exists (mk_c10j_job (Some (mk_c10j_file false false)) true [] [] [] None true true false).
-  repeat split.
+  intros j Hs Hl Hd Hx. unfold c10j_exit. rewrite Hx, c10j_warnings_spec, Hl, Hd. simpl. rewrite !orb_true_r. reflexivity.
 Qed.
+
+(* ... and pinned on the former witness *)
+Lemma job_split_pages_late_warnings_witness_lemma :
+  let j := mk_c10j_job (Some (mk_c10j_file false false)) true [] [] [] None true true false in
+  c10j_reported j = true /\ c10j_exit j = 3 /\ c10j_spec_exit j = 3.
+Proof. repeat split. Qed.
